@@ -469,6 +469,102 @@ pub fn run_resettable_cap(case: &RcCase, ctx: &mut Ctx) -> R {
     Ok(())
 }
 
+// ------------------------------------------------------------------ stacked guard macros
+
+#[derive(Clone, Debug, Serialize, Deserialize)]
+pub enum SgOp {
+    /// call entry point k (0..7) by owner / member / stranger (who = 0/1/2), with or without that caller's entry
+    Call { k: u8, who: u8, with_auth: bool },
+    Pause { on: bool, by_owner: bool },
+}
+#[derive(Clone, Debug, Serialize, Deserialize)]
+pub struct SgCase {
+    pub ops: Vec<SgOp>,
+}
+fn sg_strategy(tier: Tier) -> BoxedStrategy<SgCase> {
+    let op = prop_oneof![
+        6 => (0u8..7, prop_oneof![3 => Just(0u8), 2 => Just(1u8), 1 => Just(2u8)], proptest::bool::weighted(0.85)).prop_map(|(k, who, with_auth)| SgOp::Call { k, who, with_auth }),
+        2 => (any::<bool>(), proptest::bool::weighted(0.9)).prop_map(|(on, by_owner)| SgOp::Pause { on, by_owner }),
+    ];
+    proptest::collection::vec(op, 1..tier.pick(30usize, 60usize)).prop_map(|ops| SgCase { ops }).boxed()
+}
+pub fn run_stacked(case: &SgCase, ctx: &mut Ctx) -> R {
+    use crate::contracts::c16::stacked::Stacked;
+    const NAMES: [&str; 7] =
+        ["owner_then_pause", "pause_then_owner", "admin_then_pause", "pause_then_admin", "role_then_pause", "pause_then_role", "owner_then_when_paused"];
+    let e = envx::new_env(100, envx::BIG_TTL);
+    let owner = envx::actor(&e);
+    let member = envx::actor(&e);
+    let stranger = envx::actor(&e);
+    let c = e.register(Stacked, (owner.clone(), member.clone()));
+    let people = [owner.clone(), member.clone(), stranger.clone()];
+    let mut paused = false;
+    let mut counter: u32 = 0;
+    let (mut blocked_by_pause, mut ok_after, mut was_unpaused) = (0u32, false, false);
+    for (i, op) in case.ops.iter().enumerate() {
+        match op {
+            SgOp::Pause { on, by_owner } => {
+                let who = if *by_owner { &owner } else { &stranger };
+                let f = if *on { "pause" } else { "unpause" };
+                // `only_owner` authenticates the stored owner: only the owner's entry can satisfy it
+                envx::set_auth(&e, &[(who, &Inv::new(&c, f, args![&e]))]);
+                let r = call(&e, &c, f, args![&e]);
+                envx::no_auth(&e);
+                ctx.op(r.is_ok());
+                let should = *by_owner && paused != *on;
+                ensure!(r.is_ok() == should, "C16/stacked/pause-alternation-or-auth", "step {i}: {f} by_owner={by_owner} paused={paused}: ok={}", r.is_ok());
+                if r.is_ok() {
+                    paused = *on;
+                    if !*on {
+                        was_unpaused = true;
+                    }
+                }
+            }
+            SgOp::Call { k, who, with_auth } => {
+                let k = (*k as usize) % 7;
+                let name = NAMES[k];
+                let p = &people[(*who as usize) % 3];
+                let is_role = k == 4 || k == 5;
+                let a: soroban_sdk::Vec<Val> = if is_role { args![&e; p.clone()] } else { args![&e] };
+                if *with_auth {
+                    envx::set_auth(&e, &[(p, &Inv::new(&c, name, a.clone()))]);
+                } else {
+                    envx::no_auth(&e);
+                }
+                let r = envx::call_t::<u32>(&e, &c, name, a);
+                envx::no_auth(&e);
+                ctx.op(r.is_ok());
+                // who passes the principal guard: owner/admin entry points need the owner's entry; the role entry points
+                // need the named caller to hold the role and to authorize
+                let principal_ok = *with_auth && if is_role { (*who as usize) % 3 == 1 } else { (*who as usize) % 3 == 0 };
+                let pause_ok = if k == 6 { paused } else { !paused };
+                if r.is_ok() {
+                    ensure!(pause_ok, format!("C16/stacked.{name}/pause-guard-bypassed"), "step {i}: {name} ran while paused = {paused} (the pause guard stacked with the principal guard was lost)");
+                    ensure!(principal_ok, format!("C16/stacked.{name}/principal-guard-bypassed"), "step {i}: {name} ran for caller kind {} with_auth={with_auth}", who % 3);
+                    counter += 1;
+                    ensure!(r == Ok(counter), "C16/stacked/counter", "step {i}: {name} returned {:?}, expected {counter}", r);
+                    if was_unpaused && k != 6 {
+                        ok_after = true;
+                    }
+                } else {
+                    ensure!(!(pause_ok && principal_ok), format!("C16/stacked.{name}/refused-with-open-gates"), "step {i}: {name}: authorized principal, pause state {paused} allows it, yet refused: {:?}", r);
+                    if principal_ok && !pause_ok {
+                        blocked_by_pause += 1;
+                        ctx.class(&format!("stacked_blocked_by_pause:{name}"));
+                    }
+                }
+            }
+        }
+        let p = envx::call_t::<bool>(&e, &c, "paused", args![&e]).map_err(|er| violation("C16/stacked/getter-failed", er))?;
+        ensure!(p == paused, "C16/stacked/flag", "step {i}: paused() = {p}, model {paused}");
+    }
+    if blocked_by_pause >= 2 && ok_after {
+        ctx.nontrivial = true;
+        ctx.class("nontrivial_stacked");
+    }
+    Ok(())
+}
+
 // ------------------------------------------------------------------ upgrade / migrate
 
 #[derive(Clone, Debug, Serialize, Deserialize)]
@@ -613,7 +709,7 @@ pub fn property() -> Property {
         rule: "gate subs: case = (flavour, 2..4 funded accounts, generated initial list membership, history of <=35 (thorough 70) token entry points \
                interleaved with allow/disallow, block/unblock, pause/unpause, each with an auth mode); non-trivial = >=3 distinct (entry point, closed gate) pairs refused \
                AND an entry point succeeding after a gate was re-opened. pausable-example: increment refused while paused and working after unpause. \
-               cap: a mint exactly to the cap, one refused above it; cap-resettable: the cap lowered below the supply, a mint refused meanwhile and a mint accepted. migration: a completed migrate plus a refused second/unprepared migrate. distinct = distinct serialised case",
+               cap: a mint exactly to the cap, one refused above it; cap-resettable: the cap lowered below the supply, a mint refused meanwhile and a mint accepted. stacked-guards: harness contract stacking only_owner / only_admin / only_role with when_not_paused / when_paused in both orders; >= 2 authorized calls refused by the pause guard and one succeeding after unpause. migration: a completed migrate plus a refused second/unprepared migrate. distinct = distinct serialised case",
         subs: vec![
             gate_sub!("allow", Flavor::Allow, 1500, 30000),
             gate_sub!("block", Flavor::Block, 1500, 30000),
@@ -623,6 +719,7 @@ pub fn property() -> Property {
             gen_sub::<PCase>("pausable-example", 800, 16000, pcase_strategy, run_pausable),
             gen_sub::<CapCase>("cap", 1500, 30000, cap_strategy, run_cap),
             gen_sub::<RcCase>("cap-resettable", 1500, 30000, rc_strategy, run_resettable_cap),
+            gen_sub::<SgCase>("stacked-guards", 800, 16000, sg_strategy, run_stacked),
             gen_sub::<MigCase>("migration", 800, 16000, mig_strategy, run_migration),
         ],
         floors: vec![],
